@@ -228,6 +228,38 @@ def run(ctx):
                 res.find(key, g.loc(t.get("sp")), "the writer of %s re-processes the serialized text of a nested value with str::%s: a string literal inside it that contains the affected characters is changed" % (w.impl_self_path().replace("quil_rs::", ""), c.get("name")),
                          "`DEFCIRCUIT FOO:\n    PRAGMA note \"a<newline>b\"`: the line break inside the string comes back followed by four spaces")
     res.site("K6|serialized-text-reprocessed", True, {"writers": len(writers_), "reprocessing_sites": nre})
+    # K7 the end of a quoted string is found with escape-parity tracking: whether a quote is escaped depends on the parity of
+    #    the run of escape characters before it, which no bounded look-behind can decide.  The scanner must toggle a flag on
+    #    every escape character (or compute a run length modulo 2), or delegate to nom's `escaped*` combinators
+    key = "K7|escape-parity-tracked"
+    scan = [f for f in db.fns if f.path.startswith("quil_rs::parser::lexer::quoted_strings::surrounded")]
+    if not scan:
+        res.missing_anchor("parser::lexer::quoted_strings::surrounded")
+    else:
+        from qv.engine import fn_expr_operand as _op2, callee_path as _cp2
+        parity = []
+        for g in scan:
+            # a boolean toggled (x = !x) in a block controlled by a comparison of the current character with a constant
+            for b_ in range(len(g.blocks)):
+                for s_ in g.blocks[b_]["s"]:
+                    if s_["k"] == "assign" and s_["rv"]["k"] == "un" and s_["rv"]["op"] == "Not" and db.ty_s(g.locals[s_["p"]["l"]]["t"]) == "bool":
+                        for sb, tgt in g.control_deps(b_, transitive=False):
+                            tt = g.blocks[sb]["t"]
+                            if tt["k"] == "switch":
+                                e = _op2(g, tt["d"])
+                                if e[0] == "bin" and e[1] in ("Eq", "Ne") and any(x[0] == "const" for x in (e[2], e[3])):
+                                    parity.append("toggle on %s" % ([x[1] for x in (e[2], e[3]) if x[0] == "const"][0]))
+                    if s_["k"] == "assign" and s_["rv"]["k"] == "bin" and s_["rv"]["op"] in ("Rem", "BitAnd"):
+                        k_ = s_["rv"]["b"].get("k") or {}
+                        if str(k_.get("int")) in ("2", "1"):
+                            parity.append("run length parity")
+            for bb, t, c in g.calls():
+                if c and _cp2(c).rsplit("::", 1)[-1] in ("escaped", "escaped_transform"):
+                    parity.append("nom::" + _cp2(c).rsplit("::", 1)[-1])
+        ok = bool(parity)
+        res.site(key, True, {"mechanism": sorted(set(parity)), "verdict": "ok" if ok else "VIOLATION"})
+        if not ok:
+            res.find(key, scan[0].loc(), "the quoted-string scanner does not track the parity of escape characters before a closing quote (no flag toggled per escape character, no run-length parity, no nom escaped combinator): a bounded look-behind misjudges `\\\\\\\"`", "the value `say \\\"hi\\\"` is written as `say \\\\\\\"hi...` and the lexer ends the literal early")
     res.explanation = (
         "Effect confinement for the quote character over the %d functions reachable from the %d Quil::write impls (MIR constants and un-expanded templates, two independent readings): "
         "%d quoting sites inside QuotedString::fmt (positive control), %d elsewhere (must be 0). The escape table extracted from QuotedString::fmt and the str::replace list of the lexer must be inverse; "
